@@ -607,12 +607,19 @@ Section T3.
     assert (HP : forall c, find_obj (objs (r_cl s1)) i = Some c -> can_apply sc (c_owner c) = true).
     { rewrite P1. intros c Hc. destruct (proj1 PS eq_refl) as [A|[_ A]]; [apply can_apply_adopt_all; exact A|].
       rewrite Hc in A. exact A. }
-    pose proof (aok_from_coh sc _ _ i (I_c _ _ _ _ _ I1) HP) as AK.
-    pose proof (kubectl_apply_req sc s1 l) as K. cbv zeta in K. rewrite EI in K. fold i in K.
-    destruct (kubectl_apply sc s1 l) as [s2 r]. cbn [fst snd] in K.
+    (* the source lookups of the mutator: reads and cache writes only *)
+    pose proof (same4_mutate sc s1 l) as [M1 [M2 [_ M4]]].
+    destruct (mutate sc s1 l) as [sm okm]. cbn [fst] in M1, M2, M4.
+    destruct okm; cbn [negb]; [|apply SK; assumption].
+    assert (Im : Inv2 (i :: td) sm) by (eapply Inv2_same; eassumption).
+    assert (NIAm : ~ In i (appS sm)) by (rewrite M4; exact NIA1).
+    rewrite <- M1 in HP.
+    pose proof (aok_from_coh sc _ _ i (I_c _ _ _ _ _ Im) HP) as AK.
+    pose proof (kubectl_apply_req sc sm l) as K. cbv zeta in K. rewrite EI in K. fold i in K.
+    destruct (kubectl_apply sc sm l) as [s2 r]. cbn [fst snd] in K.
     destruct K as [K|[d K]].
-    - exact (t_attempt g td i s1 s2 r Hin NTD I1 NIA1 AK K).
-    - destruct (t_rejected_patch td i s1 d Hin I1 NIA1 AK) as [I1' [NIA1' EC']].
+    - exact (t_attempt g td i sm s2 r Hin NTD Im NIAm AK K).
+    - destruct (t_rejected_patch td i sm d Hin Im NIAm AK) as [I1' [NIA1' EC']].
       refine (t_attempt g td i _ s2 r Hin NTD I1' NIA1' _ K). rewrite EC'. exact AK.
   Qed.
 
